@@ -1145,3 +1145,63 @@ def n21_rename_has(text):
     if not edits:
         return text, []
     return apply_edits(text, edits), [dict(rule='N21', before='identifier `has`', after='`has_` (%d occurrence(s))' % len(edits))]
+
+
+def n22_while_let(text):
+    """N22: `while let PAT = EXPR { BODY }` -> `loop { match EXPR { PAT => { BODY } _ => { break; } } }` — the definition of
+    `while let` (Verus keeps no information about the failed match at the exit of a `while let`, so the exit condition could not be used)."""
+    recs = []
+    while True:
+        ft = FnText(text)
+        toks = ft.toks
+        hit = None
+        for n, k in enumerate(ft.c):
+            t = toks[k]
+            if t.kind == 'ident' and t.text == 'while' and ft.body_open is not None and ft.body_open < k < ft.body_close:
+                l = ft.nextc(k)
+                if toks[l].kind == 'ident' and toks[l].text == 'let':
+                    # `=` at depth 0 after the pattern
+                    depth = 0
+                    j = l + 1
+                    eq = None
+                    while j < ft.body_close:
+                        u = toks[j]
+                        if u.kind == 'punct':
+                            if u.text in OPEN:
+                                depth += 1
+                            elif u.text in CLOSE:
+                                depth -= 1
+                            elif u.text == '=' and depth == 0:
+                                eq = j
+                                break
+                        j += 1
+                    if eq is None:
+                        continue
+                    depth = 0
+                    j = eq + 1
+                    ob = None
+                    while j < ft.body_close:
+                        u = toks[j]
+                        if u.kind == 'punct':
+                            if u.text in '([':
+                                depth += 1
+                            elif u.text in ')]':
+                                depth -= 1
+                            elif u.text == '{' and depth == 0:
+                                ob = j
+                                break
+                        j += 1
+                    if ob is None:
+                        continue
+                    hit = (k, l, eq, ob, match_close(toks, ob))
+                    break
+        if hit is None:
+            break
+        k, l, eq, ob, cb = hit
+        pat = text[toks[l].end:toks[eq].start].strip()
+        expr = text[toks[eq].end:toks[ob].start].strip()
+        body = text[toks[ob].start:toks[cb].end]
+        new = 'loop {\n            match %s {\n                %s => %s\n                _ => { break; }\n            }\n        }' % (expr, pat, body)
+        text = text[:toks[k].start] + new + text[toks[cb].end:]
+        recs.append(dict(rule='N22', before='while let %s = .. { .. }' % pat, after='loop { match .. { %s => { .. } _ => { break; } } }' % pat))
+    return text, recs
